@@ -13,20 +13,21 @@ import (
 // Profile state
 
 type leaseCut struct {
-	in       *sim.Instance
-	t0       int64 // ms: instant the cut took effect
-	lease    time.Duration
+	in        *sim.Instance
+	t0        int64 // ms: instant the cut took effect
+	lease     time.Duration
 	steppedAt int64
-	probed   bool
-	term     uint64
+	probed    bool
+	cancelled bool
+	term      uint64
 }
 
 type isoRec struct {
-	in     *sim.Instance
-	term   uint64
-	since  int64
-	tn     int // TimeoutNow requests delivered to it while isolated
-	ahead  bool
+	in    *sim.Instance
+	term  uint64
+	since int64
+	tn    int // TimeoutNow requests delivered to it while isolated
+	ahead bool
 }
 
 type rejoinRec struct {
@@ -60,7 +61,18 @@ func (r *Runner) execMacro(a Action) {
 				nonvoters = append(nonvoters, string(s.ID))
 			}
 		}
-		quorum := (len(voters)+1)/2 + 1
+		leaderVotes := 0
+		for _, s := range cfg.Servers {
+			if string(s.ID) == r.ids[li] && s.Suffrage == raft.Voter {
+				leaderVotes = 1
+			}
+		}
+		quorum := (len(voters)+leaderVotes)/2 + 1
+		if leaderVotes >= quorum {
+			// the leader alone is a majority of the voters: nothing to lose
+			r.exec(Action{Op: "isolate", Srv: li})
+			return
+		}
 		keep := a.N
 		if keep > quorum-2 {
 			keep = quorum - 2
@@ -103,6 +115,24 @@ func (r *Runner) execMacro(a Action) {
 		for _, i := range a.Set {
 			iso[r.ids[i%len(r.ids)]] = true
 		}
+		// is it a minority of the voters? (otherwise it is just a partition)
+		minority := false
+		for i := range r.ids {
+			if in := r.live(i); in != nil && !iso[r.ids[i]] {
+				cfg := r.cfgOf(in)
+				nv, isoV := 0, 0
+				for _, s := range cfg.Servers {
+					if s.Suffrage == raft.Voter {
+						nv++
+						if iso[string(s.ID)] {
+							isoV++
+						}
+					}
+				}
+				minority = nv > 0 && nv-isoV >= nv/2+1
+				break
+			}
+		}
 		w.Mu.Lock()
 		for _, x := range r.ids {
 			for _, y := range r.ids {
@@ -114,8 +144,17 @@ func (r *Runner) execMacro(a Action) {
 		r.lastFaultMs = w.Now()
 		w.EvLocked(sim.Event{Kind: "isolatemin", S: fmt.Sprint(keys(iso))})
 		w.Mu.Unlock()
+		// a pre-vote server adopts the term of a co-isolated server that runs
+		// without pre-vote (its RequestVote carries the bumped term): the claim
+		// is only made for groups made of pre-vote servers
 		for id := range iso {
-			if in := r.liveByID(id); in != nil {
+			if in := r.liveByID(id); in != nil && in.Conf.PreVoteDisabled {
+				minority = false
+				r.feat("isolated-group-with-a-non-pre-vote-server")
+			}
+		}
+		for id := range iso {
+			if in := r.liveByID(id); in != nil && minority {
 				r.W.Mu.Lock()
 				r.isolated[id] = &isoRec{in: in, term: in.R.CurrentTerm(), since: w.Now()}
 				r.W.Mu.Unlock()
@@ -124,10 +163,20 @@ func (r *Runner) execMacro(a Action) {
 		r.feat("isolate-minority")
 	case "rejoin":
 		// heal and remember what the majority looked like
-		li, L := r.leader()
+		// the majority side's leader
+		li, L := -1, (*sim.Instance)(nil)
+		for i := range r.ids {
+			w.Mu.Lock()
+			_, isolated := r.isolated[r.ids[i]]
+			w.Mu.Unlock()
+			if in := r.live(i); in != nil && !isolated && in.R.State() == raft.Leader && (L == nil || in.R.CurrentTerm() > L.R.CurrentTerm()) {
+				li, L = i, in
+			}
+		}
 		w.Mu.Lock()
 		r.cut = map[[2]string]bool{}
 		rec := &rejoinRec{at: w.Now()}
+		exempt := false
 		if L != nil {
 			rec.leader, rec.term = r.ids[li], L.R.CurrentTerm()
 		}
@@ -142,13 +191,15 @@ func (r *Runner) execMacro(a Action) {
 			}
 			if !ir.ahead && !ir.in.Conf.PreVoteDisabled {
 				rec.servers = append(rec.servers, id)
+			} else {
+				exempt = true // a rejoining server the property makes no claim about may disrupt
 			}
 			if w.Now()-ir.since >= 5*int64(r.maxHB()/time.Millisecond) {
 				r.Feat["isolation>=5-election-timeouts"]++
 			}
 		}
 		r.isolated = map[string]*isoRec{}
-		if rec.leader != "" && len(rec.servers) > 0 {
+		if rec.leader != "" && len(rec.servers) > 0 && !exempt {
 			r.rejoins = append(r.rejoins, rec)
 		}
 		w.EvLocked(sim.Event{Kind: "rejoin", S: fmt.Sprint(rec.servers), Srv: rec.leader, Term: rec.term})
@@ -259,7 +310,11 @@ func (r *Runner) sampleProfile() {
 	now := w.Now()
 	// C13/R1: isolated leaders step down within the lease bound
 	for _, lc := range r.leaseCuts {
-		if lc.in.Dead() {
+		if lc.in.Dead() || lc.cancelled {
+			continue
+		}
+		if lc.steppedAt == 0 && !r.stillCut(lc.in.ID()) {
+			lc.cancelled = true // healed before the bound: nothing to claim
 			continue
 		}
 		st := lc.in.R.State()
@@ -394,15 +449,36 @@ func opKind(k string) string {
 	return k
 }
 
+// stillCut reports whether server id currently cannot exchange messages with
+// a majority of the voters of its latest configuration.
 func (r *Runner) stillCut(id string) bool {
 	r.W.Mu.Lock()
 	defer r.W.Mu.Unlock()
-	for k, v := range r.cut {
-		if v && (k[0] == id || k[1] == id) {
-			return true
-		}
+	srv := r.W.Servers[id]
+	if srv == nil || srv.Inst == nil {
+		return false
 	}
-	return false
+	cfg, _ := sim.LatestCfgInDisk(srv.Inst.DiskLocked(), false)
+	voters, reach := 0, 0
+	for _, s := range cfg.Servers {
+		if s.Suffrage != raft.Voter {
+			continue
+		}
+		voters++
+		v := string(s.ID)
+		if v == id {
+			reach++
+			continue
+		}
+		if r.cut[[2]string{id, v}] || r.cut[[2]string{v, id}] {
+			continue
+		}
+		if o := r.W.Servers[v]; o == nil || o.Inst == nil || o.Inst.DeadLocked() {
+			continue
+		}
+		reach++
+	}
+	return reach < voters/2+1
 }
 
 func (r *Runner) faultSince(t int64) bool {
@@ -464,6 +540,20 @@ func (r *Runner) finalProfile() {
 			default:
 				if gains > 0 {
 					w.ViolateLocked("C18", "R2", "C18/R2/leaderch-empty-after-transitions", "%s/%d had %d leadership gains but LeaderCh (never read) is empty", in.ID(), in.Gen, gains)
+				}
+			}
+		}
+	}
+	// C13/R2: a fault-free cluster keeps one leader and one term
+	if r.P.Profile == "leaselong" {
+		ls := w.O.Leaders()
+		if len(ls) > 1 {
+			w.ViolateLocked("C13", "R2", "C13/R2/leader-change-in-a-fault-free-run", "fault-free run of %d ms saw %d leaderships: %v", w.Now(), len(ls), w.O.LeaderSeq)
+		}
+		if len(ls) == 1 {
+			for _, id := range r.ids {
+				if in := w.Servers[id].Inst; in != nil && in.R != nil && in.R.CurrentTerm() != ls[0].Term && in.R.State() != raft.Shutdown {
+					w.ViolateLocked("C13", "R2", "C13/R2/term-change-in-a-fault-free-run", "fault-free run: leader %s of term %d, but %s is in term %d", ls[0].Srv, ls[0].Term, id, in.R.CurrentTerm())
 				}
 			}
 		}
